@@ -335,14 +335,16 @@ var expNil = expExact("nil")
 
 // Result of applying one command to the model.
 type mResult struct {
-	exp     expect
-	changed bool // the command changed the model state (must be logged)
-	undef   bool // outside the modelled fragment: no expectation
-	errored bool // model predicts an error / negative reply
+	exp      expect
+	changed  bool // the command changed the model state (must be logged)
+	undef    bool // outside the modelled fragment: no expectation
+	errored  bool // model predicts an error / negative reply
+	errReply bool // the predicted reply is an error (-ERR ...), not just a negative answer
 }
 
 func res(e expect, changed bool) mResult { return mResult{exp: e, changed: changed} }
 func neg(e expect) mResult               { return mResult{exp: e, errored: true} }
+func negE(substr string) mResult         { return mResult{exp: expErr(substr), errored: true, errReply: true} }
 
 func fieldsExpect(fields map[string]string) string {
 	names := make([]string, 0, len(fields))
@@ -585,14 +587,14 @@ func (m *Model) apply(args []string, now time.Duration) mResult {
 			i++
 		}
 		if m.cols[key] == nil {
-			return neg(expErr("key not found"))
+			return negE(("key not found"))
 		}
 		old := m.get(key, id)
 		if old == nil {
 			if xx {
 				return neg(expInt(0))
 			}
-			return neg(expErr("id not found"))
+			return negE(("id not found"))
 		}
 		o := old.clone()
 		n := 0
@@ -645,11 +647,11 @@ func (m *Model) apply(args []string, now time.Duration) mResult {
 		nx := cmd == "renamenx"
 		col := m.cols[a[0]]
 		if col == nil {
-			return neg(expErr("key not found"))
+			return negE(("key not found"))
 		}
 		for _, h := range m.hooks {
 			if h.key == a[0] || h.key == a[1] {
-				return neg(expErr("key has"))
+				return negE(("key has"))
 			}
 		}
 		if m.cols[a[1]] != nil && nx {
@@ -729,11 +731,11 @@ func (m *Model) apply(args []string, now time.Duration) mResult {
 			return mResult{undef: true}
 		}
 		if m.cols[a[0]] == nil {
-			return neg(expErr("key not found"))
+			return negE(("key not found"))
 		}
 		o := m.get(a[0], a[1])
 		if o == nil {
-			return neg(expErr("id not found"))
+			return negE(("id not found"))
 		}
 		v, ok := o.fields[a[2]]
 		if !ok {
@@ -745,7 +747,7 @@ func (m *Model) apply(args []string, now time.Duration) mResult {
 			return mResult{undef: true}
 		}
 		if m.cols[a[0]] == nil {
-			return neg(expErr("key not found"))
+			return negE(("key not found"))
 		}
 		if m.get(a[0], a[1]) != nil {
 			return res(expInt(1), false)
@@ -756,11 +758,11 @@ func (m *Model) apply(args []string, now time.Duration) mResult {
 			return mResult{undef: true}
 		}
 		if m.cols[a[0]] == nil {
-			return neg(expErr("key not found"))
+			return negE(("key not found"))
 		}
 		o := m.get(a[0], a[1])
 		if o == nil {
-			return neg(expErr("id not found"))
+			return negE(("id not found"))
 		}
 		if _, ok := o.fields[a[2]]; ok {
 			return res(expInt(1), false)
@@ -1357,7 +1359,7 @@ func (m *Model) applySetHook(channel bool, a []string, now time.Duration) mResul
 	prev := m.hooks[h.name]
 	if prev != nil {
 		if prev.channel != channel {
-			return neg(expErr("cannot share the same name"))
+			return negE(("cannot share the same name"))
 		}
 		if hookEqual(prev, h) {
 			// identical definition: nothing changes (deadline must be equal too,
